@@ -10,6 +10,7 @@ From Coq Require Import ZArith List Bool Lia Permutation Sorted String.
 From KV Require Import Base.Sx Gen.Generated Model.Categorical Model.Concat Proofs.ConcatP Proofs.ConcatTieP Proofs.ConcatExP.
 From KV Require Base.SelSlice Model.Select Proofs.SelectLawsP Model.ConcatSel Proofs.ConcatSelP Proofs.ConcatSelExP.
 From KV Require Base.AxisIndex Base.NdArray Model.LazyIdx Model.ConcatData Proofs.ConcatDataP Proofs.ConcatDataExP.
+From KV Require Model.ConcatIdent Proofs.ConcatIdentP Model.ConcatMulti Proofs.ConcatMultiP Proofs.ConcatMultiExP.
 Import ListNotations.
 Open Scope nat_scope.
 
@@ -103,8 +104,9 @@ Theorem C19_concat_expand : forall input ps m,
 Proof. exact concat_expand_all. Qed.
 Print Assumptions C19_concat_expand.
 
-(* every other sensor (float / int arrays, categorical data) present in an arbitrary subset of the parts: the whole
-   presents the concatenation of the parts' values with the dummy value of the sensor's type (NaN, -1, '', False; C12)
+(* every other sensor (float / SIGNED int arrays, categorical data of float / signed integer / string / boolean /
+   object type; unsigned integer types: see C19_unsigned_sensor_* below) present in an arbitrary subset of the parts:
+   the whole presents the concatenation of the parts' values with the dummy value of the sensor's type (NaN, -1, '', False; C12)
    over the parts that lack it; KeyError iff no part has it; it only fails for a sensor that is categorical in one
    part and a plain array in another *)
 Theorem C19_concat_expand_sensors : forall input ps m name ar,
@@ -128,6 +130,32 @@ Theorem C19_dummy_is_C12s : forall dt,
                   end.
 Proof. exact dummy_code_def. Qed.
 Print Assumptions C19_dummy_is_C12s.
+
+(* FINDING C19-F4 (open).  [get_sensor_u] = ConcatenatedSensorCache.get including sensors whose common dtype is an
+   unsigned integer type ([uns]): when some part lacks such a sensor, dummy_sensor_getter evaluates
+   np.dtype(dtype).type(-1), which NumPy >= 2 refuses (OverflowError), so the sensor of the concatenation cannot be
+   read although the property asks for the concatenation with dummy fill.  _refuted: a concrete two-part
+   concatenation; _partial: C19_concat_expand_sensors for ConcatenatedSensorCache.get under the guard "not an
+   unsigned type, or no part lacks the sensor". *)
+Theorem C19_unsigned_sensor_refuted :
+  exists input ps m name l,
+    sort_parts input = Some ps /\ Forall part_ok ps /\ concat_open input = COk m /\ Forall (sens_ok name) ps /\
+    mixed_kinds name ps = false /\ spec_sensor ps name = Some l /\
+    get_sensor_u (m_parts m) name false true = RFail.
+Proof. exact ex_unsigned_refuted. Qed.
+Print Assumptions C19_unsigned_sensor_refuted.
+
+Theorem C19_unsigned_sensor_partial : forall input ps m name ar uns,
+  sort_parts input = Some ps -> Forall part_ok ps -> concat_open input = COk m -> Forall (sens_ok name) ps ->
+  uns = false \/ lacks_some ps name = false ->
+  match get_sensor_u (m_parts m) name ar uns with
+  | RNum l => spec_sensor ps name = Some l
+  | RCat c => spec_sensor ps name = Some (zexpand c) /\ cd_ok (list_sum (map nT ps)) c
+  | RKeyError => spec_sensor ps name = None
+  | RFail => mixed_kinds name ps = true
+  end.
+Proof. exact unsigned_sensor_partial. Qed.
+Print Assumptions C19_unsigned_sensor_partial.
 
 (* cache[name] under the time selection: every part applies its own slice of the global mask; glued, that is the
    global mask applied to the whole series; and the slices tile the mask *)
@@ -257,3 +285,125 @@ Example C19_index_example :
     [KV.Base.AxisIndex.ASlice (Some 1%Z) None None; KV.Base.AxisIndex.AInt 0] <> KV.Base.AxisIndex.Err.
 Proof. exact ConcatDataExP.ex_data_short. Qed.
 Print Assumptions C19_index_example.
+
+(* ------------------------------------------------------------------ identical subarrays / spectral windows *)
+(* Model/ConcatIdent.v: what Subarray.__eq__ / SpectralWindow.__eq__ compare, component by component as the translator
+   re-reads it from _description (fail-closed), and the if-chain of dummy_sensor_getter.  Model/ConcatMulti.v:
+   select(subarray=s, spw=w, ...) on a concatenation with several subarrays / spectral windows. *)
+Import KV.Model.ConcatIdent KV.Model.ConcatMulti.
+Open Scope nat_scope.
+
+(* what the translator finds: the antennas by their full description in order, then the products as pairs of input
+   labels in order (no sorting, no set); the seven attributes of a spectral window; nan / -1 / '' / False by numpy
+   type class; the filler of a missing sensor is the dummy of the common dtype of the parts that have it *)
+Theorem C19_identity_source :
+  subarray_description_parts = [("ants", "description"); ("corr_products", "inpA,inpB")]%string /\
+  subarray_keeps_given_order = true /\
+  spw_description_fields = ["centre_freq"; "channel_width"; "num_chans"; "sideband"; "band"; "product"; "bandwidth"]%string /\
+  dummy_value_table = [("floating", "nan"); ("integer", "-1"); ("bytes_", "empty"); ("str_", "empty"); ("bool_", "False")]%string /\
+  concat_filler_is_dummy_of_common_dtype = true.
+Proof. exact KV.Proofs.ConcatIdentP.ident_constants_ok. Qed.
+Print Assumptions C19_identity_source.
+
+(* two subarrays compare equal EXACTLY when they have the same antennas in the same order and the same correlation
+   products in the same order (the order of the products is the order of the columns of vis / flags / weights); two
+   spectral windows exactly when all seven attributes agree *)
+Theorem C19_subarray_identity : forall a b : subarray, sub_eqb a b = true <-> a = b.
+Proof. exact KV.Proofs.ConcatIdentP.sub_eqb_eq. Qed.
+Print Assumptions C19_subarray_identity.
+
+Theorem C19_spw_identity : forall a b : spwin, spw_eqb a b = true <-> a = b.
+Proof. exact KV.Proofs.ConcatIdentP.spw_eqb_eq. Qed.
+Print Assumptions C19_spw_identity.
+
+(* the value ids handed to Model/Concat.v: entry i gets the position of the first entry identical to it, so two
+   entries get the same id exactly when they are identical *)
+Theorem C19_value_ids : forall (tbl : list subarray) i j, (i < List.length tbl)%nat -> (j < List.length tbl)%nat ->
+  (nth i (intern_ids sub_eqb tbl) 0 = nth j (intern_ids sub_eqb tbl) 0 <-> nth i tbl (mkSub [] []) = nth j tbl (mkSub [] [])).
+Proof. exact KV.Proofs.ConcatIdentP.sub_ids_same. Qed.
+Print Assumptions C19_value_ids.
+
+(* identical subarrays (spectral windows) merged, and ONLY identical ones: two parts carry the same subarray index in
+   the opened concatenation exactly when their subarrays are identical (rp, rq = table positions of their values) *)
+Theorem C19_subarrays_merged_iff_identical : forall (tbl : list subarray) input ps m p q rp rq,
+  sort_parts input = Some ps -> Forall part_ok ps -> concat_open input = COk m ->
+  In p ps -> In q ps -> (rp < List.length tbl)%nat -> (rq < List.length tbl)%nat ->
+  uv (p_sub p) = [Z.of_nat (nth rp (intern_ids sub_eqb tbl) 0)] ->
+  uv (p_sub q) = [Z.of_nat (nth rq (intern_ids sub_eqb tbl) 0)] ->
+  (zindex (m_subs m) (sub_of p) = zindex (m_subs m) (sub_of q) <-> nth rp tbl (mkSub [] []) = nth rq tbl (mkSub [] [])).
+Proof. exact KV.Proofs.ConcatMultiP.subarrays_merged_iff_identical. Qed.
+Print Assumptions C19_subarrays_merged_iff_identical.
+
+Theorem C19_spws_merged_iff_identical : forall (tbl : list spwin) input ps m p q rp rq,
+  sort_parts input = Some ps -> Forall part_ok ps -> concat_open input = COk m ->
+  In p ps -> In q ps -> (rp < List.length tbl)%nat -> (rq < List.length tbl)%nat ->
+  uv (p_spw p) = [Z.of_nat (nth rp (intern_ids spw_eqb tbl) 0)] ->
+  uv (p_spw q) = [Z.of_nat (nth rq (intern_ids spw_eqb tbl) 0)] ->
+  (zindex (m_spws m) (spw_of p) = zindex (m_spws m) (spw_of q)
+   <-> nth rp tbl (mkSpw 0 0 0 0 0 0 0) = nth rq tbl (mkSpw 0 0 0 0 0 0 0)).
+Proof. exact KV.Proofs.ConcatMultiP.spws_merged_iff_identical. Qed.
+Print Assumptions C19_spws_merged_iff_identical.
+
+(* the filler per type read from dummy_sensor_getter is the one Model/Concat.v fills with (C12's dummy_value):
+   NaN for floats, -1 for integers, '' for strings, False for booleans *)
+Theorem C19_dummy_table : forall dt, dummy_of_table dummy_value_table dt = dummy_code dt.
+Proof. exact KV.Proofs.ConcatIdentP.dummy_table_is_model. Qed.
+Print Assumptions C19_dummy_table.
+
+(* ------------------------------------------------------------------ select(subarray=s, spw=w, ...) *)
+(* what the translator finds in DataSet.select: spw= / subarray= default to the current ones; an index beyond the
+   lists raises IndexError; switching resets the time mask to (spw_index == spw) & (subarray_index == subarray) and the
+   channel / product masks to the size of THAT window / subarray; select() reads no product list or channel grid
+   other than subarrays[self.subarray] / spectral_windows[self.spw] *)
+Theorem C19_select_sw_source :
+  select_time_reset_sensors = ["Observation/spw_index"; "Observation/subarray_index"]%string /\
+  select_reads_only_current_subarray = true /\ select_reads_only_current_spw = true /\
+  select_sw_out_of_range_raises_indexerror = true.
+Proof. exact select_sw_constants_ok. Qed.
+Print Assumptions C19_select_sw_source.
+
+(* select(subarray=s, spw=w) keeps exactly the dumps whose subarray is the s-th and whose spectral window is the
+   w-th of the merged lists (s = w = 0: the default selection of C19_concat_expand) *)
+Theorem C19_keep_sw : forall input ps m s w,
+  sort_parts input = Some ps -> Forall part_ok ps -> concat_open input = COk m ->
+  m_keep m s w = Some (spec_keep ps s w).
+Proof. exact KV.Proofs.ConcatMultiP.keep_sw_open. Qed.
+Print Assumptions C19_keep_sw.
+
+(* select_sw_commutes: after select(subarray=s, spw=w) and ANY history of successful further calls on the whole, a
+   part whose subarray / window are the s-th / w-th of the merged lists has ITS OWN products and channels equal to
+   the whole's, the translated history on that part alone succeeds and selects exactly the part's segment of the time
+   mask of the whole and the same channels and products; of every other part no dump is selected *)
+Theorem C19_select_sw_commutes : forall input ps m E s w calls,
+  sort_parts input = Some ps -> Forall part_ok ps -> concat_open input = COk m ->
+  Forall KV.Proofs.ConcatMultiP.single_sw ps -> (s < List.length (m_subs m))%nat -> (w < List.length (m_spws m))%nat ->
+  Forall (fun c => NoDup (keys c)) calls ->
+  exists mo, merged_obs (whole_env E m s w) m = Some mo /\
+  m_keep m (Z.of_nat s) (Z.of_nat w) = Some (spec_keep ps (Z.of_nat s) (Z.of_nat w)) /\
+  forall S, run mo (init mo) calls = Ok S ->
+    let TK := band (spec_keep ps (Z.of_nat s) (Z.of_nat w)) (tk S) in
+    forall i p t, nth_error ps i = Some p -> nth_error (trs_of (m_cat m) ps) i = Some t ->
+      if member m s w p
+      then part_env E p = whole_env E m s w /\
+           exists Sp, run (part_obs (part_env E p) p) (init (part_obs (part_env E p) p)) (map (tr_kwargs t) calls) = Ok Sp
+                      /\ tk Sp = seg t TK /\ fk Sp = fk S /\ bk Sp = bk S
+      else seg t TK = repeat false (nT p).
+Proof. exact KV.Proofs.ConcatMultiP.select_sw_commutes. Qed.
+Print Assumptions C19_select_sw_commutes.
+
+(* a concatenation B | C | A where C lists the same three products of the same two antennas in another order: C is
+   another subarray (index 1); pol='hh' selects columns 0, 1 in subarray 0 and columns 1, 2 in subarray 1, each as
+   the part alone does *)
+Example C19_select_sw_example :
+  intern_ids sub_eqb ConcatMultiExP.ex_subs = [0; 1; 0] /\ intern_ids spw_eqb ConcatMultiExP.ex_spws = [0; 0; 0] /\
+  sub_eqb ConcatMultiExP.exS0 ConcatMultiExP.exS1 = false /\
+  sort_parts ConcatMultiExP.exM_input = Some ConcatMultiExP.exM_sorted /\
+  concat_open ConcatMultiExP.exM_input = COk ConcatMultiExP.exM_m /\
+  Forall part_ok ConcatMultiExP.exM_sorted /\ Forall KV.Proofs.ConcatMultiP.single_sw ConcatMultiExP.exM_sorted /\
+  m_subs ConcatMultiExP.exM_m = [0; 1]%Z /\
+  m_keep ConcatMultiExP.exM_m 1 0 = Some [false; false; false; false; true; true; false; false; false] /\
+  map (member ConcatMultiExP.exM_m 1 0) ConcatMultiExP.exM_sorted = [false; true; false] /\
+  ConcatMultiExP.bk_of (run (ConcatMultiExP.exM_mo 0 0) (init (ConcatMultiExP.exM_mo 0 0)) ConcatMultiExP.exM_calls) = [true; true; false] /\
+  ConcatMultiExP.bk_of (run (ConcatMultiExP.exM_mo 1 0) (init (ConcatMultiExP.exM_mo 1 0)) ConcatMultiExP.exM_calls) = [false; true; true].
+Proof. exact ConcatMultiExP.exM_short. Qed.
+Print Assumptions C19_select_sw_example.
